@@ -2,7 +2,7 @@
    Tie classes are compared by mean value, never by position: NumPy's argsort is not stable, so among
    agents with equal means the implementation may legitimately pick another one than the stable model
    (Proofs.v, [select_tie_invariant]: all valid rankings agree up to the mean class). *)
-From Coq Require Import List Arith Bool ZArith QArith.
+From Coq Require Import List Arith Bool ZArith QArith Qabs.
 Import ListNotations.
 From AgileV Require Import Base.Prelude C05.Model C05.HeapModel.
 Local Open Scope nat_scope.
@@ -64,13 +64,25 @@ Definition heap_verdict (c : cfg) (pop : list (agent nat)) (draws : list (list n
   end.
 
 (* [shared], [changed]: observed on the implementation (object identities / snapshots) *)
-Definition check_select (c : cfg) (pop : list (agent nat)) (draws : list (list nat))
+(* [mobs]: the scores the implementation actually computed (the float64 results of np.mean, imported
+   exactly), or [] when they were not observed.  They must agree with the exact window means up to
+   float rounding (relative 2^-40); the ranking is then taken on the observed scores, so that no
+   assumption on how float rounding orders near-ties is needed
+   (props: valid_ranking_transfers_from_float_means). *)
+Definition close (a b : Q) : bool :=
+  Qle_bool (Qabs (a - b)) ((1 # 1099511627776) * (1 + Qabs b)).
+Definition scores (c : cfg) (pop : list (agent nat)) (mobs : list Q) : option (list Q) :=
+  match mobs with
+  | [] => Some (means c pop)
+  | _ => if forallb2 close mobs (means c pop) then Some mobs else None
+  end.
+
+Definition check_select_f (c : cfg) (pop : list (agent nat)) (mobs : list Q) (draws : list (list nat))
            (reqs : list rreq) (shared changed : bool) (ob : option (oagent * list oagent)) : bool :=
-  match pop, ob with
-  | [], None => true
-  | a0 :: rest, Some (oe, oms) =>
+  match pop, ob, scores c pop mobs with
+  | [], None, _ => true
+  | a0 :: rest, Some (oe, oms), Some ms =>
       let n := length pop in
-      let ms := means c pop in
       let pl := select_plan (ranks ms) c (max_index a0 rest) draws in
       let same_class p q := (p <? n) && (q <? n) && Qeq_bool (nth p ms 0%Q) (nth q ms 0%Q) in
       let faithful (o : oagent) := list_eqb Qeq_bool (o_fitness o) (a_fitness (nth (o_parent o) pop a0)) in
@@ -96,13 +108,21 @@ Definition check_select (c : cfg) (pop : list (agent nat)) (draws : list (list n
       | Some (ms, mc) => Bool.eqb ms shared && Bool.eqb mc changed
       | None => false
       end
-  | _, _ => false
+  | _, _, _ => false
   end.
+
+Definition check_select c pop draws reqs shared changed ob :=
+  check_select_f c pop [] draws reqs shared changed ob.
 
 (* a chain of generations: every generation is checked from the population the implementation
    actually had before the call *)
 Definition gen_case := (list (agent nat) * list (list nat) * list rreq * (bool * bool) * option (oagent * list oagent))%type.
 Definition check_chain (c : cfg) (gs : list gen_case) : bool :=
   forallb (fun g : gen_case => let '(pop, draws, reqs, (shared, changed), ob) := g in check_select c pop draws reqs shared changed ob) gs.
+
+Definition gen_case_f := (list (agent nat) * list Q * list (list nat) * list rreq * (bool * bool) * option (oagent * list oagent))%type.
+Definition check_chain_f (c : cfg) (gs : list gen_case_f) : bool :=
+  forallb (fun g : gen_case_f => let '(pop, mobs, draws, reqs, (shared, changed), ob) := g in
+                                 check_select_f c pop mobs draws reqs shared changed ob) gs.
 
 Definition mk (i : Z) (f : list Q) (tag : nat) : agent nat := {| a_index := i; a_fitness := f; a_body := tag |}.
